@@ -24,6 +24,7 @@ import (
 	executiongroup "github.com/furiko-io/furiko/apis/execution"
 	execution "github.com/furiko-io/furiko/apis/execution/v1alpha1"
 	"github.com/furiko-io/furiko/pkg/execution/controllers/jobcontroller"
+	"github.com/furiko-io/furiko/pkg/execution/validation"
 	"github.com/furiko-io/furiko/pkg/execution/taskexecutor/podtaskexecutor"
 	jobutil "github.com/furiko-io/furiko/pkg/execution/util/job"
 	"github.com/furiko-io/furiko/pkg/runtime/reconciler"
@@ -168,6 +169,21 @@ type JL struct {
 	faulted                  bool
 	rejected                 bool
 	killed, deleted, started bool
+	adm                      *sw.Admission
+	admW                     *sw.World
+	rekillRefused            int
+}
+
+// admission returns the real webhooks bound to the current world's caches.
+func (j *JL) admission() *sw.Admission {
+	if j.adm == nil || j.admW != j.W {
+		a, err := sw.NewAdmission(j.W.Proc("webhook").Context())
+		if err != nil {
+			panic(err)
+		}
+		j.adm, j.admW = a, j.W
+	}
+	return j.adm
 }
 
 const jlName = "j"
@@ -211,6 +227,13 @@ func NewJL(o JLOpts, t *sw.Tracer, run int) *JL {
 	} else {
 		j.Cfg.Strategy = "AllSuccessful"
 	}
+	// the Job is submitted through the real mutating and validating webhooks, as a user's Job would be
+	validation.Clock = j.W.Clk
+	admitted, err := j.admission().Admit("jobs", "CREATE", nil, job)
+	if err != nil {
+		panic(err)
+	}
+	job = admitted.(*execution.Job)
 	out, err := j.W.API.Direct("user", ktesting.NewCreateAction(sw.JobsGVR, ns, job))
 	if err != nil {
 		panic(err)
@@ -498,6 +521,33 @@ func (j *JL) Apply(l Label) bool {
 			panic(err)
 		}
 		j.killed = true
+	case "UserRekill": // the user moves (D seconds from now) or removes (D = 99) a kill timestamp; the real validating webhook decides
+		cur := j.jobObj()
+		if cur == nil || cur.Spec.KillTimestamp == nil || cur.Spec.KillTimestamp.Unix() == w.Clk.Now().Unix() {
+			return false
+		}
+		next := cur.DeepCopy()
+		if l.D == 99 {
+			next.Spec.KillTimestamp = nil
+		} else {
+			kt := metav1.NewTime(time.Unix(sw.Base+int64(w.Now()+l.D), 0))
+			if kt.Equal(cur.Spec.KillTimestamp) {
+				return false
+			}
+			next.Spec.KillTimestamp = &kt
+		}
+		validation.Clock = w.Clk
+		out, err := j.admission().Admit("jobs", "UPDATE", cur, next)
+		if err != nil {
+			j.rekillRefused++
+			l.X = "refused"
+			break
+		}
+		upd := out.(*execution.Job)
+		upd.ResourceVersion = ""
+		if _, err := w.API.Direct("user", ktesting.NewUpdateAction(sw.JobsGVR, ns, upd)); err != nil {
+			panic(err)
+		}
 	case "UserDelete":
 		cur := j.jobObj()
 		if cur == nil || cur.DeletionTimestamp != nil {
@@ -689,6 +739,12 @@ func (j *JL) Enabled(rng *rand.Rand, maxTime int, faultP float64, applied bool) 
 	}
 	if job != nil && job.Spec.KillTimestamp == nil && rng.Intn(14) == 0 {
 		add(Label{A: "UserKill", D: rng.Intn(4)}, 1)
+	}
+	if job != nil && job.Spec.KillTimestamp != nil && job.Spec.KillTimestamp.Unix() != j.W.Clk.Now().Unix() && rng.Intn(10) == 0 {
+		d := []int{99, 0, 1, 2, 3, 99}[rng.Intn(6)]
+		if d == 99 || sw.Base+int64(j.W.Now()+d) != job.Spec.KillTimestamp.Unix() {
+			add(Label{A: "UserRekill", D: d}, 1)
+		}
 	}
 	if job != nil && job.DeletionTimestamp == nil && rng.Intn(25) == 0 {
 		add(Label{A: "UserDelete"}, 1)
